@@ -369,8 +369,10 @@ def g_reassembly(rng, n, ctx):
     from nxslib.comm import CommHandler
     from nxslib.proto.parse import Parser
     out = []
-    sf = ctx.sf
     for _ in range(n):
+        custom = rng.random() < 0.4          # the custom codec of the prelude instead of the built-in one
+        sf = prelude_py.XorFrame() if custom else ctx.sf
+        sofb = 0x7E if custom else 0x55
         stream = b""
         for _ in range(rng.randrange(0, 5)):
             r = rng.random()
@@ -382,7 +384,7 @@ def g_reassembly(rng, n, ctx):
             elif r < 0.3:
                 fr = rb(rng, rng.randrange(1, 5)) + fr
             elif r < 0.4:
-                fr = bytes([0x55] * rng.randrange(1, 3)) + fr
+                fr = bytes([sofb] * rng.randrange(1, 3)) + fr
             stream += fr
         if rng.random() < 0.2:
             stream = stream[:rng.randrange(0, len(stream) + 1)]
@@ -394,17 +396,19 @@ def g_reassembly(rng, n, ctx):
             i += k
             if rng.random() < 0.15:
                 chunks.append(b"")
-        prev = rng.choice([b"", b"", b"\x55", rb(rng, 2)])
+        prev = rng.choice([b"", b"", bytes([sofb]), rb(rng, 2)])
         calls = rng.randrange(1, 8)
+        pasx = "(o Parser (_frame (o XorFrame)) (_user_types N))" if custom else ctx.pa_sx.text
         csx = pyl.RawSx("(o CommHandler (_prev_read %s) (_intf (o ScriptedIntf (chunks %s))) (_parse %s))" % (
-            pyl.sx(prev), pyl.sx(list(chunks)), ctx.pa_sx.text))
+            pyl.sx(prev), pyl.sx(list(chunks)), pasx))
 
-        def run(prev, chunks, calls):
-            c = CommHandler(prelude_py.ScriptedIntf(list(chunks)), Parser())
+        def run(prev, chunks, calls, custom=custom):
+            c = CommHandler(prelude_py.ScriptedIntf(list(chunks)), Parser(frame=prelude_py.XorFrame) if custom else Parser())
             c._prev_read = prev
             return prelude_py.read_frames(c, calls)
 
-        out.append((pyl.fn_cmd("read_frames", [csx, calls], fuel=400), pyl.impl_result(run, prev, chunks, calls), "_read_frame"))
+        out.append((pyl.fn_cmd("read_frames", [csx, calls], fuel=400), pyl.impl_result(run, prev, chunks, calls),
+                    "_read_frame(custom codec)" if custom else "_read_frame"))
     return out
 
 
